@@ -57,7 +57,7 @@ def search_and_replay(prop, g, o, cex, inputs):
         spec.setdefault('entry', g['entry'])
         spec.setdefault('defines', g.get('defines', []))
         spec.setdefault('unwind', max(g.get('unwind', 1), 1))
-    tu = os.path.join(VERIF, 'proofs', spec['tu'])
+    tu = pipeline.localized_tu(spec['tu'], wd)
     out = {'cex_harness': spec['tu'] + ':' + spec['entry'], 'bounds': spec.get('bounds', 'loops unwound %d times' % spec.get('unwind', 1)),
            'reproduced': False}
     a = os.path.join(wd, 'cex.gb')
